@@ -14,6 +14,7 @@ From RecordUpdate Require Import RecordSet.
 Import RecordSetNotations.
 From EV Require Import Base.Str Model.Value Model.Keyspace Model.Reply Model.Prog.
 From EV Require Import Model.CmdList Model.CmdHash Model.CmdSet Model.CmdZSet Model.CmdGeneric Model.CmdString.
+From EV Require Import Model.CmdZRand Model.CmdKeyspace.
 From EV Require Import Model.Dispatch Model.AbsForm.
 Local Open Scope Z_scope.
 
@@ -41,7 +42,8 @@ Fixpoint run_cl {R} (d : Z) (p : prog R) (s : state) : state * R :=
     the process: every node draws its own numbers). *)
 Definition handler_for (pk : picker) (name : string) : option (list string -> prog reply) :=
   first_some [list_handler name; hash_handler name; set_handler pk name; zset_handler name;
-              generic_handler name; string_handler name].
+              generic_handler name; string_handler name;
+              zrand_handler default_zpick name; keyspace_handler default_keysource name].
 
 (** * Log entries: [internal.ApplyRequest] *)
 Inductive request :=
